@@ -24,11 +24,48 @@ import (
 type Op struct {
 	K string `json:"k"` // join | lift | wrap | unit | yield
 	C int    `json:"c,omitempty"`
+	// V: how the F / T value handed to the combinator came about: 0 through
+	// duct.L2 / duct.L1, 1 the zero value (no payload), 2 built for another
+	// instantiation and converted. The step's own type parameters name the
+	// node in every case.
+	V int `json:"v,omitempty"`
 }
 
 type Program struct {
-	A   int  `json:"a"` // type index of From
+	A   int  `json:"a"`            // type index of From
+	AV  int  `json:"av,omitempty"` // variant (see Op.V) of From's source value
 	Ops []Op `json:"ops"`
+}
+
+// mkF and mkT build the value a step is given, in the variant asked for.
+func mkF[B, C any](f any, v int) duct.F[B, C] {
+	switch v {
+	case 1:
+		var z duct.F[B, C]
+		return z
+	case 2:
+		return duct.F[B, C](duct.L2[C, []B](f))
+	}
+	return duct.L2[B, C](f)
+}
+
+func mkT[A any](f any, v int) duct.T[A] {
+	switch v {
+	case 1:
+		var z duct.T[A]
+		return z
+	case 2:
+		return duct.T[A](duct.L1[[]A](f))
+	}
+	return duct.L1[A](f)
+}
+
+// payload is the identity a node must carry for step identity id.
+func payload(id, v int) int {
+	if v == 1 {
+		return -1
+	}
+	return id
 }
 
 func (p Program) String() string { b, _ := json.Marshal(p); return string(b) }
@@ -74,21 +111,21 @@ func allOps() []Op {
 // build runs the real combinators. Step i carries the identity 100+i as its
 // F / Source / Target payload.
 func build(p Program) (m any, finalType int) {
-	m = fromTab[p.A](100)
+	m = fromTab[p.A](100, p.AV)
 	b := p.A
 	for i, op := range p.Ops {
 		id := 101 + i
 		switch op.K {
 		case "join":
-			m = joinTab[[3]int{p.A, b, op.C}](m, id)
+			m = joinTab[[3]int{p.A, b, op.C}](m, id, op.V)
 		case "lift":
-			m = liftTab[[3]int{p.A, b, op.C}](m, id)
+			m = liftTab[[3]int{p.A, b, op.C}](m, id, op.V)
 		case "wrap":
 			m = wrapTab[[2]int{p.A, b}](m)
 		case "unit":
 			m = unitTab[[2]int{p.A, b}](m)
 		case "yield":
-			m = yieldTab[[2]int{p.A, b}](m, id)
+			m = yieldTab[[2]int{p.A, b}](m, id, op.V)
 		}
 		b, _ = next(b, op)
 	}
@@ -111,16 +148,16 @@ func model(p Program) *mnode {
 	root := &mnode{kind: "morphism"}
 	open := []*mnode{root}
 	top := func() *mnode { return open[len(open)-1] }
-	top().children = append(top().children, &mnode{kind: "from", a: typeNames[p.A], id: 100})
+	top().children = append(top().children, &mnode{kind: "from", a: typeNames[p.A], id: payload(100, p.AV)})
 	b := p.A
 	for i, op := range p.Ops {
 		id := 101 + i
 		switch op.K {
 		case "join":
-			top().children = append(top().children, &mnode{kind: "map", a: typeNames[b], b: typeNames[op.C], id: id})
+			top().children = append(top().children, &mnode{kind: "map", a: typeNames[b], b: typeNames[op.C], id: payload(id, op.V)})
 		case "lift":
 			inner := &mnode{kind: "seq"}
-			inner.children = append(inner.children, &mnode{kind: "map", a: typeNames[b-1], b: typeNames[op.C], id: id})
+			inner.children = append(inner.children, &mnode{kind: "map", a: typeNames[b-1], b: typeNames[op.C], id: payload(id, op.V)})
 			top().children = append(top().children, inner)
 			open = append(open, inner)
 		case "wrap":
@@ -132,7 +169,7 @@ func model(p Program) *mnode {
 				open = open[:len(open)-1]
 			}
 		case "yield":
-			top().children = append(top().children, &mnode{kind: "yield", a: typeNames[b], id: id})
+			top().children = append(top().children, &mnode{kind: "yield", a: typeNames[b], id: payload(id, op.V)})
 		}
 		b, _ = next(b, op)
 	}
@@ -266,6 +303,11 @@ func checkProgram(p Program, onlyFault int, st *c16Stats) *driver.Violation {
 	if err != nil {
 		return viol("C16.c", "Apply returned an error although no callback failed", "program %v: %v", p, err)
 	}
+	rec2 := &recorder{failAt: -1}
+	if err := apply(m, rec2); err != nil || !sameTrace(rec2.trace, rec.trace) {
+		return viol("C16.a", "two visits of the same program report different things", "program %v: second visit returned %v\n first  %s\n second %s", p, err, traceStr(rec.trace), traceStr(rec2.trace))
+	}
+	st.visits++
 	// C16.b: well-bracketed
 	var stack []cb
 	for i, c := range rec.trace {
@@ -329,6 +371,14 @@ func checkProgram(p Program, onlyFault int, st *c16Stats) *driver.Violation {
 				return viol("C16.c", "the visit before the failure differs from the fault-free visit", "program %v: fault at %d: callback %d is %v, expected %v", p, k, i, r.trace[i], want[i])
 			}
 		}
+		// the program is a value: a visit that failed must not change what
+		// the next visit of the same program reports
+		again := &recorder{failAt: -1}
+		err = apply(m2, again)
+		st.visits++
+		if err != nil || !sameTrace(again.trace, want) {
+			return viol("C16.a", "a visit after a failed visit of the same program does not report the AST", "program %v: visit failed at callback %d, the next visit returned %v and reported\n got  %s\n want %s", p, k, err, traceStr(again.trace), traceStr(want))
+		}
 	}
 	return nil
 }
@@ -351,7 +401,35 @@ type c16Replay struct {
 	Program  Program `json:"program"`
 }
 
+func sameTrace(a, b []cb) bool {
+	if len(a) != len(b) {
+		return false
+	}
+	for i := range a {
+		if a[i] != b[i] {
+			return false
+		}
+	}
+	return true
+}
+
 func genProgram(r *driver.Rand, maxLen int) Program {
+	p := genProgram0(r, maxLen)
+	// how the F / T values of the steps came about
+	if r.Chance(1, 3) {
+		if r.Chance(1, 3) {
+			p.AV = 1 + r.Intn(2)
+		}
+		for i := range p.Ops {
+			if k := p.Ops[i].K; (k == "join" || k == "lift" || k == "yield") && r.Chance(1, 2) {
+				p.Ops[i].V = 1 + r.Intn(2)
+			}
+		}
+	}
+	return p
+}
+
+func genProgram0(r *driver.Rand, maxLen int) Program {
 	p := Program{A: driver.Pick(r, 0, 2)}
 	b := p.A
 	n := r.Intn(maxLen + 1)
